@@ -58,6 +58,8 @@ fn check(prop: &str, tier: Tier) -> i32 {
         "C06" => props::ide_sweep::run(props::ide_sweep::Which::C06, tier),
         "C10" => props::ide_sweep::run(props::ide_sweep::Which::C10, tier),
         "C20" => props::ide_sweep::run(props::ide_sweep::Which::C20, tier),
+        "C11" => props::history::run(tier),
+        "C12" => props::cancel::run(tier),
         "C13" => props::positions::run_c13(tier),
         "C14" => props::positions::run_c14(tier),
         _ => {
@@ -85,6 +87,8 @@ fn replay(path: &str) -> i32 {
         "C06" => props::ide_sweep::replay(props::ide_sweep::Which::C06, w),
         "C10" => props::ide_sweep::replay(props::ide_sweep::Which::C10, w),
         "C20" => props::ide_sweep::replay(props::ide_sweep::Which::C20, w),
+        "C11" => props::history::replay(w),
+        "C12" => props::cancel::replay(w),
         "C13" => props::positions::replay_c13(w),
         "C14" => props::positions::replay_c14(w),
         _ => {
@@ -109,6 +113,12 @@ fn worker(args: &[String]) -> i32 {
         Some("nest") => {
             let p = |i: usize| args.get(i).and_then(|s| s.parse::<usize>().ok()).unwrap_or(0);
             props::parser::worker_nest(p(1), p(2), p(3) != 0, p(4) != 0)
+        }
+        Some("c11-seeds") => props::history::worker_seed_digest(args.get(1).and_then(|s| s.parse().ok())),
+        Some("hashorder") => {
+            let m: std::collections::HashMap<u32, u32> = (0..12).map(|i| (i, i)).collect();
+            println!("{:?}", m.keys().collect::<Vec<_>>());
+            0
         }
         Some("run") => {
             let tier = if args.get(2).map(|s| s.as_str()) == Some("thorough") { Tier::Thorough } else { Tier::Quick };
